@@ -52,9 +52,9 @@ def shards(tier, seed):
     q = tier == "quick"
     out = []
     for i in range(12):
-        out.append({"kind": "small", "seed": seed, "shard": i, "n": 60 if q else 900})
+        out.append({"kind": "small", "seed": seed, "shard": i, "n": 60 if q else 3000})
     for i in range(4):
-        out.append({"kind": "big", "seed": seed, "shard": 12 + i, "n": 2 if q else 30})
+        out.append({"kind": "big", "seed": seed, "shard": 12 + i, "n": 2 if q else 90})
     return out
 
 
